@@ -58,6 +58,22 @@ CLAIMED["C32"] = ("jaxpr->SMT (z3) of unfold_fields / unfold_array / unfold_dete
                   "bounded SMT verification: the upper half of every unfolding is the input; every reconstructed cell equals sign * source cell of the documented parity / mirror index table; volume-reduced records unfold to the reduction of the unfolded spatial record when nothing sits on a plane -- for all real arrays, E and H, ~30 detector variants per scene",
                   "reals for floats; reduced shapes <= 4 cells per axis; Diffractive / ClosedSurface / mode / projection detectors and non-uniform grids out of scope", "4/C32")
 
+CLAIMED["C08"] = ("jaxpr->SMT (z3) of the same scene in the three cyclic axis orientations, relabelled by the harness and placed by the real placement code",
+                  "bounded SMT verification: for all initial fields the outputs (E, H, raw field-detector records) of the relabelled scenes equal the permuted outputs of the original, for scenes with per-face PML/PEC/PMC/periodic/Bloch boundaries, diagonal eps/mu tensors, electric and magnetic dipoles and a plane source",
+                  "reals for floats (1e-9 relative tolerance mode available, all obligations were discharged exactly); T <= 5; shapes with three different extents <= 5", "4/C08")
+CLAIMED["C09"] = ("jaxpr->SMT (z3) of an N-cell periodic/Bloch domain and its tiled supercell, both placed by the real code",
+                  "bounded SMT verification: for all N-cell fields (complex for Bloch) the supercell state after T steps equals the tiled N-cell state with the Bloch phase applied per copy, for tiling factors 2-3 along one or two axes, uniform and non-uniform (tiled-width) grids, k*L in {0, pi/2, pi, generic}",
+                  "reals for floats; Bloch cases in 1e-9 relative tolerance mode (phase powers computed in the harness); T <= 5; materials seeded concrete", "4/C09")
+CLAIMED["C18"] = ("jaxpr->SMT (z3) of apply_params on real device scenes with symbolic parameters, pre-existing materials and dispersive coefficients",
+                  "bounded SMT verification: continuous devices give cell * blend(eps) = 1 (identity for full tensors) within the material range; discrete devices give exactly one material's inverse permittivity and coefficients; cells outside devices are unchanged; apply(p2, apply(p1, A)) == apply(p2, A) on an arbitrary symbolic state incl. etched devices",
+                  "reals for floats (1e-9); 1-2 devices, 2-3 materials, 0-2 poles; full-tensor background concrete", "4/C18")
+CLAIMED["C19"] = ("jaxpr->SMT (z3) of ClosestIndex.__call__ and its VJP with every input voxel symbolic",
+                  "bounded SMT verification: the returned index is in range and no other allowed value (integer, or inverse permittivity of an isotropic material) is closer, for all real inputs; the shape is kept; vjp/grad return the cotangent unchanged",
+                  "reals for floats; 2-5 materials; shapes incl. singleton axes and depth != number of materials", "4/C19")
+CLAIMED["C24"] = ("jaxpr->SMT (z3) of binary_median_filter / PillarDiscretization with every voxel symbolic",
+                  "bounded SMT verification: the median filter output equals the majority of the odd box under the configured padding for all binary inputs (decided over the real relaxation 0<=x<=1 first); pillar discretisation returns an allowed column that minimises the configured distance for all real inputs in a box",
+                  "reals for floats; kernels {1,3,5}; volumes <= 3x3x4; heights <= 4, 2-4 isotropic materials", "4/C24")
+
 NOT_APPLICABLE = {
     "C12": "numerical accuracy bound (1e-6 residual energy after >=1e3 steps on >=40^3 cells in floating point); no algebraic identity, far beyond any bounded real-arithmetic encoding",
     "C13": "1e-3 power-ratio bound after hundreds of steps (TFSF leakage is small but non-zero by design); not an identity, out of reach for bounded real arithmetic",
